@@ -88,19 +88,58 @@ def snapshot(d):
     return out
 
 
-def make_recorder_class(log):
+class FailingRecord(object):
+    """stands in for the record of ONE write_record call: after `chunks` pieces of the record have been handed to the
+    output file, reading the next piece fails with an I/O error (an unreadable temporary block file, a full disk ...)"""
+    def __init__(self, record, chunks):
+        self.__dict__['_rec'] = record
+        self.__dict__['_chunks'] = chunks
+
+    def __getattr__(self, name):
+        return getattr(self._rec, name)
+
+    def __setattr__(self, name, value):
+        setattr(self._rec, name, value)
+
+    def __iter__(self):
+        n = 0
+        for piece in self._rec:
+            if n >= self._chunks:
+                raise OSError(28, 'No space left on device (injected by the harness)')
+            yield piece
+            n += 1
+
+
+def make_recorder_class(log, fault=None):
+    """fault = {'at': index of the write_record call that fails, 'chunks': pieces written before the error, 'fired': ...}"""
+    calls = [0]
+
     class ObservedRecorder(WARCRecorder):
         def write_record(self, record):
             fn = self._warc_filename
             before = os.path.getsize(fn) if os.path.exists(fn) else 0
+            k = calls[0]
+            calls[0] += 1
+            failing = fault is not None and fault['at'] == k
+            ok = False
             try:
-                return super().write_record(record)
+                if failing:
+                    fault['fired'] = {'file': fn, 'before': before, 'type': record.fields.get('WARC-Type')}
+                    r = super().write_record(FailingRecord(record, fault['chunks']))
+                else:
+                    r = super().write_record(record)
+                ok = True
+                return r
             finally:
                 after = os.path.getsize(fn) if os.path.exists(fn) else 0
-                with open(fn, 'rb') as f:
-                    f.seek(before)
-                    data = f.read()
-                log.append({'file': fn, 'before': before, 'after': after, 'data': data.hex()})
+                if failing and not ok:
+                    fault['fired']['after'] = after
+                    fault['fired']['journal_left'] = os.path.exists(fn + '-wpullinc')
+                else:
+                    with open(fn, 'rb') as f:
+                        f.seek(before)
+                        data = f.read()
+                    log.append({'file': fn, 'before': before, 'after': after, 'data': data.hex()})
     return ObservedRecorder
 
 
@@ -118,7 +157,12 @@ def run_lifetime(run, clock, tmpdir):
     loop = new_loop()
     rec = None
     try:
-        rec = make_recorder_class(writes)(cfg['prefix'], params=params)
+        fault = None
+        if cfg.get('fail_write') is not None:
+            fault = {'at': cfg['fail_write'][0], 'chunks': cfg['fail_write'][1], 'fired': None}
+        out['fault'] = fault
+        cur_step = [None]           # (session index, step) being run: where an injected fault surfaces
+        rec = make_recorder_class(writes, fault)(cfg['prefix'], params=params)
         pool = Pool()
         client = Client(connection_pool=pool)
         rec.listen_to_http_client(client)
@@ -144,6 +188,22 @@ def run_lifetime(run, clock, tmpdir):
 
         live = {}
         nsid = [1000]
+
+        def note_write_failure(L, e):
+            """the injected I/O error left write_record through this session's end_request / end_response listener: the model event
+            is 'write_failed' in place of the end_* event (our own logging listener may or may not have run before the recorder's)"""
+            if fault is None or fault['fired'] is None or fault.get('noted') or not isinstance(e, OSError):
+                return
+            fault['noted'] = True
+            sid = L['sid']
+            if table is not None and fault['fired']['type'] in ('response', 'revisit') and table.calls:
+                table.calls.pop()           # the lookup made for the record that could not be written
+            for j in range(len(events) - 1, -1, -1):
+                if events[j][0] == 'http' and events[j][1] == sid:
+                    if events[j][2] in ('end_request', 'end_response'):
+                        del events[j]
+                    break
+            events.append(['http', sid, 'write_failed'])
         for sidx, step in run['schedule']:
             s = run['sessions'][sidx]
             if s['kind'] == 'http':
@@ -152,7 +212,7 @@ def run_lifetime(run, clock, tmpdir):
                     pool.next_conn = sc.connection
                     hs = client.session()
                     hs.__enter__()
-                    live[sidx] = {'hs': hs, 'sc': sc, 'err': None}
+                    live[sidx] = {'hs': hs, 'sc': sc, 'err': None, 'sid': n_http[0] - 1}
                     req = Request(s['url'], method=s.get('method', 'GET'))
                     for k, v in s.get('req_fields') or []:
                         req.fields.add(k, v)
@@ -166,6 +226,7 @@ def run_lifetime(run, clock, tmpdir):
                         loop.run_until_complete(hs.start(req))
                     except Exception as e:        # noqa
                         live[sidx]['err'] = e
+                        note_write_failure(live[sidx], e)
                 elif step == 'download':
                     L = live[sidx]
                     if L['err'] is None:
@@ -173,6 +234,7 @@ def run_lifetime(run, clock, tmpdir):
                             loop.run_until_complete(L['hs'].download(io.BytesIO()))
                         except Exception as e:    # noqa
                             L['err'] = e
+                            note_write_failure(L, e)
                 elif step == 'exit':
                     L = live.pop(sidx)
                     e = L['err']
@@ -240,6 +302,8 @@ def run_lifetime(run, clock, tmpdir):
         ends = [e for e in events if e[0] == 'http' and e[2] == 'end_response']
         for e, call in zip(ends, table.calls):
             e[4] = call[2]
+    if out.get('fault') and out['fault']['fired'] is not None and not out['fault'].get('noted'):
+        out['fault_outside_http'] = True       # the failing append belonged to an FTP session, the warcinfo or the log record
     out['events'] = events
     out['writes'] = writes
     out['before'] = before
